@@ -161,3 +161,96 @@ def maybe_unbound(flag):
 def retry_optional():
     import lena.alpha.optional              # imported again after a failed import (environment without jinja2)
     return lena.alpha.optional.fancy_table
+
+
+def else_not_guarded():
+    try:
+        value = len("abc")
+    except Exception:
+        return None
+    else:
+        return value + not_defined_anywhere     # VIOLATION on purpose: the `else:` part is not guarded by the handler
+
+
+def else_skipped():
+    try:
+        label = unicode
+    except NameError:
+        label = "py3"
+    else:
+        return never_defined_either             # fine here: the body always fails, the `else:` part never runs
+    return label
+
+
+def handler_reraises():
+    try:
+        return lena.beta.not_there_either       # VIOLATION on purpose: the handler re-raises, the call fails
+    except AttributeError:
+        raise
+
+
+def handler_converts(x):
+    try:
+        return lena.beta.not_there_at_all(x)    # VIOLATION on purpose: fails because of the undefined name, as KeyError
+    except (AttributeError, NameError):
+        raise lena.core.LenaKeyError(x)
+
+
+def asks_hasattr():
+    if hasattr(lena.beta, "util") and hasattr(lena.beta, "absent_name"):
+        return 1
+    return getattr(lena.beta, "another_absent_name", None), getattr(lena.beta.util, "double")
+
+
+def asks_getattr_plain():
+    return getattr(lena.beta, "plainly_absent")    # VIOLATION on purpose: getattr without a default
+
+
+def lazy_import():
+    global lena
+    if not hasattr(lena, "delta"):
+        import lena.delta                       # the lazy-import idiom: not an import-order dependence
+    return None
+
+
+def lazy_import_handler():
+    global lena
+    try:
+        lena.delta.value
+    except AttributeError:
+        import lena.delta                       # the same idiom with a handler
+    return None
+
+
+def order_dependent():
+    try:
+        return lena.delta.value                 # with only lena.alpha imported the handler runs, after
+    except AttributeError:                      # `import lena.delta` it does not: agreement is all that is checked here
+        return None
+
+
+def raises_through_local(key):
+    err = KeyError(key)
+    if key:
+        raise err                               # VIOLATION on purpose: LenaKeyError wraps KeyError
+    good = lena.core.LenaKeyError(key)
+    raise good
+
+
+def raises_handler_name(key):
+    try:
+        return {}[key]
+    except KeyError as err:
+        raise err                               # a re-raise of whatever was caught: not judged
+
+
+def two_handlers_else():
+    try:
+        value = unicode
+    except NameError:
+        value = str
+    except AttributeError:
+        value = None
+    else:
+        value = undefined_in_else               # fine here: the body always fails
+    return value
